@@ -145,6 +145,23 @@ func (i *Interpreter) executeStatements(stmts []Statement, env *Environment) (in
 	return result, nil
 }
 
+// isModuleDefinition reports whether name, seen from the scope env of a route,
+// function or other activation, is a constant or function of the module.
+func (i *Interpreter) isModuleDefinition(name string, env *Environment) bool {
+	if env == i.globalEnv || !env.definedIn(name, i.globalEnv) {
+		return false
+	}
+	if i.IsConstant(name) {
+		return true
+	}
+	value, _ := i.globalEnv.Get(name)
+	switch value.(type) {
+	case Function, *Function:
+		return true
+	}
+	return false
+}
+
 // executeAssign executes a variable assignment
 func (i *Interpreter) executeAssign(stmt AssignStatement, env *Environment) (interface{}, error) {
 	// Handle dot-notation field assignment (e.g., obj.field = value)
@@ -182,6 +199,15 @@ func (i *Interpreter) executeAssign(stmt AssignStatement, env *Environment) (int
 		return nil, fmt.Errorf("cannot redeclare variable '%s' in the same scope", stmt.Target)
 	}
 
+	// The module's own definitions (constants, functions) are shared by every
+	// request: a route or function must not change them. A constant cannot be
+	// assigned at all; any other module-level name is shadowed by a variable
+	// of the current scope instead of being overwritten for everybody.
+	moduleLevel := i.isModuleDefinition(stmt.Target, env)
+	if moduleLevel && i.IsConstant(stmt.Target) {
+		return nil, fmt.Errorf("cannot reassign constant '%s'", stmt.Target)
+	}
+
 	value, err := i.EvaluateExpression(stmt.Value, env)
 	if err != nil {
 		return nil, err
@@ -189,7 +215,7 @@ func (i *Interpreter) executeAssign(stmt AssignStatement, env *Environment) (int
 
 	// If variable exists in any scope (including parent), update it
 	// Otherwise, define a new variable in current scope
-	if env.Has(stmt.Target) {
+	if env.Has(stmt.Target) && !moduleLevel {
 		env.Set(stmt.Target, value)
 	} else {
 		env.Define(stmt.Target, value)
@@ -248,6 +274,12 @@ func (i *Interpreter) executeReassign(stmt ReassignStatement, env *Environment) 
 	// Check if target is a constant (immutable)
 	if i.IsConstant(stmt.Target) {
 		return nil, fmt.Errorf("cannot reassign constant '%s'", stmt.Target)
+	}
+
+	// Nor may a route or function overwrite another of the module's own
+	// definitions (a function, say): every later request would see it.
+	if i.isModuleDefinition(stmt.Target, env) {
+		return nil, fmt.Errorf("cannot assign to '%s': it is defined by the module, not by this route or function", stmt.Target)
 	}
 
 	value, err := i.EvaluateExpression(stmt.Value, env)
